@@ -863,4 +863,332 @@ theorem fold_arms_complete {p : List Char} (L : List (Handler × Fb)) (hNA : NoA
       exact ⟨_, rfl, by simp⟩
     · exact ih hNA' _ y e hp ms hg
 
+
+/-! ### keys of `path2method_router` are distinct -/
+
+def NoDupPaths : List Leaf → Prop
+  | [] => True
+  | l :: ls => (∀ l' ∈ ls, l'.path ≠ l.path) ∧ NoDupPaths ls
+
+theorem mem_leafUpsert {q : List Char} {mk : Leaf} {upd : Leaf → Leaf} (hmk : mk.path = q)
+    (hupd : ∀ l, l.path = q → (upd l).path = q) {ls : List Leaf} {l' : Leaf}
+    (h : l' ∈ leafUpsert q mk upd ls) : l' ∈ ls ∨ l'.path = q := by
+  induction ls with
+  | nil => simp [leafUpsert] at h; subst h; exact Or.inr (hupd _ hmk)
+  | cons l ls ih =>
+    unfold leafUpsert at h
+    by_cases hl : l.path = q
+    · simp only [hl, ↓reduceIte, List.mem_cons] at h
+      rcases h with h | h
+      · subst h; exact Or.inr (hupd _ hl)
+      · exact Or.inl (List.mem_cons_of_mem _ h)
+    · simp only [hl, ↓reduceIte, List.mem_cons] at h
+      rcases h with h | h
+      · subst h; exact Or.inl List.mem_cons_self
+      · rcases ih h with h' | h'
+        · exact Or.inl (List.mem_cons_of_mem _ h')
+        · exact Or.inr h'
+
+theorem NoDupPaths.upsert {q : List Char} {mk : Leaf} {upd : Leaf → Leaf} (hmk : mk.path = q)
+    (hupd : ∀ l, l.path = q → (upd l).path = q) {ls : List Leaf} (h : NoDupPaths ls) :
+    NoDupPaths (leafUpsert q mk upd ls) := by
+  induction ls with
+  | nil => simp [leafUpsert, NoDupPaths]
+  | cons l ls ih =>
+    obtain ⟨h1, h2⟩ := h
+    unfold leafUpsert
+    by_cases hl : l.path = q
+    · simp only [hl, ↓reduceIte]
+      refine ⟨?_, h2⟩
+      intro l' hl'; rw [hupd _ hl, ← hl]; exact h1 l' hl'
+    · simp only [hl, ↓reduceIte]
+      refine ⟨?_, ih h2⟩
+      intro l' hl'
+      rcases mem_leafUpsert hmk hupd hl' with h' | h'
+      · exact h1 l' h'
+      · rw [h']; exact fun e => hl e.symm
+
+theorem NoDupPaths.insertLeaf {x : Leaf} {ls : List Leaf} (h : NoDupPaths ls) (hx : ∀ l' ∈ ls, l'.path ≠ x.path) :
+    NoDupPaths (insertLeaf x ls) := by
+  induction ls with
+  | nil => simp [Router.insertLeaf, NoDupPaths]
+  | cons a as ih =>
+    obtain ⟨h1, h2⟩ := h
+    unfold Router.insertLeaf
+    split
+    · exact ⟨hx, h1, h2⟩
+    · refine ⟨?_, ih h2 (fun l' hl' => hx l' (List.mem_cons_of_mem _ hl'))⟩
+      intro l' hl'
+      rcases mem_insertLeaf.mp hl' with e | e
+      · subst e; exact fun e => hx a List.mem_cons_self e.symm
+      · exact h1 l' e
+
+theorem NoDupPaths.sort {ls : List Leaf} (h : NoDupPaths ls) : NoDupPaths (sortLeaves ls) := by
+  induction ls with
+  | nil => simp [sortLeaves, NoDupPaths]
+  | cons a as ih =>
+    obtain ⟨h1, h2⟩ := h
+    have : sortLeaves (a :: as) = Router.insertLeaf a (sortLeaves as) := rfl
+    rw [this]
+    exact (ih h2).insertLeaf (fun l' hl' => h1 l' (mem_sortLeaves.mp hl'))
+
+theorem NoDupPaths.eq_of_path {ls : List Leaf} (h : NoDupPaths ls) {l1 l2 : Leaf} (h1 : l1 ∈ ls) (h2 : l2 ∈ ls)
+    (hp : l1.path = l2.path) : l1 = l2 := by
+  induction ls with
+  | nil => cases h1
+  | cons a as ih =>
+    obtain ⟨ha, has⟩ := h
+    rcases List.mem_cons.mp h1 with e1 | e1 <;> rcases List.mem_cons.mp h2 with e2 | e2
+    · rw [e1, e2]
+    · subst e1; exact absurd hp.symm (ha l2 e2)
+    · subst e2; exact absurd hp (ha l1 e1)
+    · exact ih has e1 e2
+
+theorem NoDupPaths.buildLeaves (L : List (Handler × Fb)) {acc : List Leaf} (h : NoDupPaths acc) :
+    NoDupPaths (buildLeaves L acc) := by
+  induction L generalizing acc with
+  | nil => simpa [Router.buildLeaves] using h
+  | cons x rest ih =>
+    simp only [Router.buildLeaves]
+    apply ih
+    unfold leafStep
+    cases x.1.guard with
+    | any =>
+      simp only
+      refine NoDupPaths.upsert (q := x.1.path) rfl ?_ h
+      intro l _; rfl
+    | some ms =>
+      simp only
+      refine NoDupPaths.upsert (q := x.1.path) rfl ?_ h
+      intro l hl; exact hl
+
+theorem NoDupPaths.addCatchAlls (ps : List PathFb) {acc : List Leaf} (h : NoDupPaths acc) :
+    NoDupPaths (addCatchAlls ps acc) := by
+  induction ps generalizing acc with
+  | nil => simpa [Router.addCatchAlls] using h
+  | cons q qs ih =>
+    simp only [Router.addCatchAlls]
+    apply ih
+    refine NoDupPaths.upsert (q := q.path) rfl ?_ h
+    intro l hl; exact hl
+
+theorem fallbackPaths_spec {fbs0 : List Fb} : ∀ (fbs : List Fb) (vr pr : Router) (acc out : List PathFb) (pr' : Router),
+    (∀ fb ∈ fbs, fb ∈ fbs0) →
+    (∀ q ∈ acc, q.fb ∈ fbs0 ∧ ∃ pfx, q.fb.pfx = some pfx ∧ fallbackPath pfx = some q.path) →
+    fallbackPaths fbs vr pr acc = .ok (out, pr') →
+    ∀ q ∈ out, q.fb ∈ fbs0 ∧ ∃ pfx, q.fb.pfx = some pfx ∧ fallbackPath pfx = some q.path := by
+  intro fbs
+  induction fbs with
+  | nil =>
+    intro vr pr acc out pr' _ hacc h
+    simp [fallbackPaths] at h
+    rw [← h.1]; exact hacc
+  | cons fb rest ih =>
+    intro vr pr acc out pr' hsub hacc h
+    have hsub' : ∀ fb ∈ rest, fb ∈ fbs0 := fun f hf => hsub f (List.mem_cons_of_mem _ hf)
+    unfold fallbackPaths at h
+    split at h
+    · exact ih _ _ _ _ _ hsub' hacc h
+    · rename_i p hp
+      split at h
+      · exact ih _ _ _ _ _ hsub' hacc h
+      · rename_i fp hfp
+        split at h
+        · exact ih _ _ _ _ _ hsub' hacc h
+        · cases h
+        · cases h
+        · split at h
+          · cases h
+          · refine ih _ _ _ _ _ hsub' ?_ h
+            intro q hq
+            rcases List.mem_append.mp hq with hq | hq
+            · exact hacc q hq
+            · simp at hq; subst hq
+              exact ⟨hsub fb List.mem_cons_self, p, hp, hfp⟩
+
+/-- The shape of an accepted path router: its entries are the sorted `path2method_router` built
+    from the handlers (each with its fallback) and the catch-all paths of prefix-based fallbacks. -/
+theorem PathRouter.new_leaves {comps : List Comp} {fbs : List Fb} {r : PathRouter}
+    (h : PathRouter.new comps fbs = .ok r) :
+    ∃ (hfs : List (Handler × Fb)) (pfbs : List PathFb),
+      r.leaves = sortLeaves (addCatchAlls pfbs (buildLeaves hfs [])) ∧
+      (∀ y ∈ hfs, y.1 ∈ handlersOf comps) ∧
+      (∀ x ∈ handlersOf comps, ∃ fb, (x, fb) ∈ hfs) ∧
+      methodConflict (handlersOf comps) = false ∧
+      (∃ rootFb, scopeFallback fbs (commonAncestor (comps.map Comp.scope)) = some rootFb ∧ r.rootFb = rootFb.f) ∧
+      (∀ q ∈ pfbs, q.fb ∈ fallbacksOf comps ∧ ∃ pfx, q.fb.pfx = some pfx ∧ fallbackPath pfx = some q.path) := by
+  unfold PathRouter.new at h
+  simp only at h
+  split at h
+  · cases h
+  · rename_i rootFb hroot
+    split at h
+    · cases h
+    · rename_i hconf
+      split at h
+      · cases h
+      · split at h
+        · cases h
+        · rename_i pfbs pr hpf
+          split at h
+          · cases h
+          · rename_i hall
+            split at h
+            · cases h
+            · split at h
+              · cases h
+              · injection h with h
+                subst h
+                refine ⟨_, pfbs, rfl, ?_, ?_, by simpa using hconf, ⟨rootFb, hroot, rfl⟩,
+                  fallbackPaths_spec _ _ _ _ _ _ (fun fb hfb => hfb) (by intro q hq; cases hq) hpf⟩
+                · intro y hy
+                  rw [List.mem_filterMap] at hy
+                  obtain ⟨⟨y0, ofb⟩, hy0, hy1⟩ := hy
+                  rw [List.mem_map] at hy0
+                  obtain ⟨y', hy', e⟩ := hy0
+                  cases ofb with
+                  | none => simp at hy1
+                  | some fb' =>
+                    simp at hy1 e
+                    rw [← hy1, ← e.1]; exact hy'
+                · intro x hx
+                  cases hfb : handlerFallback fbs pfbs pr x with
+                  | none =>
+                    exfalso
+                    apply hall
+                    rw [List.any_eq_true]
+                    exact ⟨(x, handlerFallback fbs pfbs pr x), List.mem_map.mpr ⟨x, hx, rfl⟩, by simp [hfb]⟩
+                  | some fb =>
+                    refine ⟨fb, ?_⟩
+                    rw [List.mem_filterMap]
+                    exact ⟨(x, handlerFallback fbs pfbs pr x), List.mem_map.mpr ⟨x, hx, rfl⟩, by simp [hfb]⟩
+
+theorem NoDupPaths.new {comps : List Comp} {fbs : List Fb} {r : PathRouter}
+    (h : PathRouter.new comps fbs = .ok r) : NoDupPaths r.leaves := by
+  obtain ⟨hfs, pfbs, hl, _⟩ := PathRouter.new_leaves h
+  rw [hl]
+  exact ((NoDupPaths.buildLeaves hfs (acc := []) trivial).addCatchAlls pfbs).sort
+
+/-- **The entry for a handler's path answers with that handler**: in an accepted path router, every
+    entry whose path is the (full) path of a registered handler `x` dispatches each method `x`
+    accepts to `x`. -/
+theorem PathRouter.new_designated {comps : List Comp} {fbs : List Fb} {r : PathRouter}
+    (h : PathRouter.new comps fbs = .ok r) {x : Handler} (hx : x ∈ handlersOf comps) {m : String}
+    (hadm : x.guard.admits m = true) {l : Leaf} (hl : l ∈ r.leaves) (hp : l.path = x.path) :
+    l.dispatch m = .handler x.h := by
+  obtain ⟨l', hl', hp', hd⟩ := PathRouter.new_reachable h hx hadm
+  rw [(NoDupPaths.new h).eq_of_path hl hl' (by rw [hp, hp'])]
+  exact hd
+
+
+/-! ### entries: from handlers, or from prefix-based fallbacks -/
+
+theorem look_of_mem {ls : List Leaf} (hN : NoDupPaths ls) {l : Leaf} (hl : l ∈ ls) : look l.path ls = some l := by
+  unfold look
+  cases hf : ls.find? (fun l' => l'.path = l.path) with
+  | none =>
+    have := List.find?_eq_none.mp hf l hl
+    simp at this
+  | some l' =>
+    have hm := List.mem_of_find?_eq_some hf
+    have hp := List.find?_some hf
+    simp at hp
+    rw [hN.eq_of_path hm hl hp]
+
+theorem look_addCatchAlls_of_none (p : List Char) (ps : List PathFb) (acc : List Leaf)
+    (h : look p acc = none) : ∀ l, look p (addCatchAlls ps acc) = some l →
+      l.arms = [] ∧ ∃ q ∈ ps, q.path = p ∧ l.fb = .fallback q.fb.f := by
+  induction ps generalizing acc with
+  | nil => intro l hl; simp [addCatchAlls, h] at hl
+  | cons q qs ih =>
+    intro l hl
+    simp only [addCatchAlls] at hl
+    by_cases hpq : p = q.path
+    · have hlook : look p (leafUpsert q.path { path := q.path, arms := [], fb := .fallback q.fb.f } id acc) =
+          some { path := q.path, arms := [], fb := .fallback q.fb.f } := by
+        rw [look_upsert]
+        · subst hpq; simp [h]
+        · rfl
+        · intro l hl; exact hl
+      rw [look_addCatchAlls_of_some p qs _ hlook] at hl
+      injection hl with hl; subst hl
+      exact ⟨rfl, q, List.mem_cons_self, hpq.symm, rfl⟩
+    · have hlook : look p (leafUpsert q.path { path := q.path, arms := [], fb := .fallback q.fb.f } id acc) = none := by
+        rw [look_upsert]
+        · simp [hpq, h]
+        · rfl
+        · intro l hl; exact hl
+      obtain ⟨h1, q', hq', h2⟩ := ih _ hlook l hl
+      exact ⟨h1, q', List.mem_cons_of_mem _ hq', h2⟩
+
+theorem fold_some_has_handler {p : List Char} (L : List (Handler × Fb)) (ol : Option Leaf) {l : Leaf}
+    (h : L.foldl (stepAt p) ol = some l) : ol.isSome = true ∨ ∃ y ∈ L, y.1.path = p := by
+  induction L generalizing ol with
+  | nil => simp at h; simp [h]
+  | cons z rest ih =>
+    simp only [List.foldl_cons] at h
+    rcases ih _ h with h' | ⟨y, hy, hp⟩
+    · unfold stepAt at h'
+      by_cases hz : z.1.path = p
+      · exact Or.inr ⟨z, List.mem_cons_self, hz⟩
+      · simp only [hz, ↓reduceIte] at h'; exact Or.inl h'
+    · exact Or.inr ⟨y, List.mem_cons_of_mem _ hy, hp⟩
+
+/-- Every entry of an accepted path router comes from the blueprint: its arms are handlers
+    registered for exactly that path, and an entry without such a handler is the catch-all of a
+    prefix-based fallback. -/
+theorem PathRouter.new_entry {comps : List Comp} {fbs : List Fb} {r : PathRouter}
+    (h : PathRouter.new comps fbs = .ok r) {l : Leaf} (hl : l ∈ r.leaves) :
+    (∀ a ∈ l.arms, ∃ x ∈ handlersOf comps, x.path = l.path ∧ x.guard = .some a.2.2 ∧ a.2.1 = x.h) ∧
+    ((∃ x ∈ handlersOf comps, x.path = l.path) ∨
+      (l.arms = [] ∧ ∃ fb ∈ fallbacksOf comps, ∃ pfx, fb.pfx = some pfx ∧ fallbackPath pfx = some l.path ∧ l.fb = .fallback fb.f)) := by
+  obtain ⟨hfs, pfbs, hleaves, hsub, _, _, _, hpf⟩ := PathRouter.new_leaves h
+  rw [hleaves, mem_sortLeaves] at hl
+  have hN : NoDupPaths (addCatchAlls pfbs (buildLeaves hfs [])) :=
+    (NoDupPaths.buildLeaves hfs (acc := []) trivial).addCatchAlls pfbs
+  have hlook := look_of_mem hN hl
+  cases hb : look l.path (buildLeaves hfs []) with
+  | some l0 =>
+    rw [look_addCatchAlls_of_some _ pfbs _ hb] at hlook
+    injection hlook with e; subst e
+    rw [look_buildLeaves] at hb
+    have snd := fold_arms_sound (p := l0.path) hfs (look l0.path []) (by intro l1 h1; simp [look] at h1) l0 hb
+    refine ⟨?_, Or.inl ?_⟩
+    · intro a ha
+      obtain ⟨y, hy, h1, h2, h3⟩ := snd.2 a ha
+      exact ⟨y.1, hsub y hy, h1, h2, h3⟩
+    · rcases fold_some_has_handler hfs _ hb with h' | ⟨y, hy, hp⟩
+      · simp [look] at h'
+      · exact ⟨y.1, hsub y hy, hp⟩
+  | none =>
+    obtain ⟨harms, q, hq, hqp, hfb⟩ := look_addCatchAlls_of_none _ pfbs _ hb l hlook
+    refine ⟨(by rw [harms]; intro a ha; cases ha), Or.inr ⟨harms, q.fb, (hpf q hq).1, ?_⟩⟩
+    obtain ⟨pfx, h1, h2⟩ := (hpf q hq).2
+    exact ⟨pfx, h1, by rw [h2, hqp], hfb⟩
+
+/-- **`Allow` is exact**: when the entry's fallback is a fallback handler, the methods it is shown
+    are exactly the methods of the guards registered for that path. -/
+theorem PathRouter.new_allowed {comps : List Comp} {fbs : List Fb} {r : PathRouter}
+    (h : PathRouter.new comps fbs = .ok r) {l : Leaf} (hl : l ∈ r.leaves) {f : Option Nat} (hf : l.fb = .fallback f)
+    (m : String) :
+    m ∈ l.allowed ↔ ∃ x ∈ handlersOf comps, x.path = l.path ∧ ∃ ms, x.guard = .some ms ∧ m ∈ ms := by
+  constructor
+  · intro hm
+    unfold Leaf.allowed at hm
+    rw [List.mem_flatMap] at hm
+    obtain ⟨a, ha, hma⟩ := hm
+    obtain ⟨x, hx, hp, hg, _⟩ := (PathRouter.new_entry h hl).1 a ha
+    exact ⟨x, hx, hp, a.2.2, hg, hma⟩
+  · rintro ⟨x, hx, hp, ms, hg, hm⟩
+    have hadm : x.guard.admits m = true := by rw [hg]; exact admits_some_iff.mpr hm
+    have hd := PathRouter.new_designated h hx hadm hl hp.symm
+    unfold Leaf.dispatch at hd
+    cases hfind : l.arms.find? (fun a => a.2.2.contains m) with
+    | some a =>
+      unfold Leaf.allowed
+      rw [List.mem_flatMap]
+      exact ⟨a, List.mem_of_find?_eq_some hfind, by simpa using List.find?_some hfind⟩
+    | none =>
+      rw [hfind, hf] at hd; cases hd
+
 end Pxv.Router
